@@ -149,7 +149,7 @@ def _build_file(tier: str):
     cfg = _cfg(tier)
 
     def build(rnd: Any) -> dict:
-        return {'target': 'file', 'claim': rnd.random() < 0.5, 'dirs': L.build_doc(rnd, cfg)}
+        return {'target': 'file', 'claim': rnd.randint(0, 99) < 50, 'dirs': L.build_doc(rnd, cfg)}
     return build
 
 
@@ -159,7 +159,7 @@ def _build_target(tier: str):
 
     def build(rnd: Any) -> dict:
         t = targets[rnd.randint(0, len(targets) - 1)]
-        return {'target': t, 'claim': rnd.random() < 0.5, 'dirs': L.build_target(rnd, t, cfg)}
+        return {'target': t, 'claim': rnd.randint(0, 99) < 50, 'dirs': L.build_target(rnd, t, cfg)}
     return build
 
 
